@@ -14,7 +14,8 @@ import time
 
 import vflib as V
 
-SEQ_CFGS = ["MCLazyPool_seq_nolimit.cfg", "MCLazyPool_seq_max0.cfg", "MCLazyPool_seq_max1.cfg", "MCLazyPool_seq_max2.cfg"]
+SEQ_CFGS = ["MCLazyPool_seq_nolimit.cfg", "MCLazyPool_seq_max0.cfg", "MCLazyPool_seq_max1.cfg", "MCLazyPool_seq_max2.cfg",
+            "MCLazyPool_seq_halve.cfg", "MCLazyPool_seq_zero_max2.cfg", "MCLazyPool_seq_neg.cfg"]
 
 TIERS = {
     "C13": {"quick": dict(runs=[dict(fam="acc", iters=500, shards=6)], mc=[("MCLazy", "MCLazy_quick.cfg")],
@@ -22,10 +23,12 @@ TIERS = {
             "thorough": dict(runs=[dict(fam="acc", iters=12000, shards=16)], mc=[("MCLazy", "MCLazy_thorough.cfg")],
                              defs=["MCLazyDef_quick.cfg", "MCLazyDef_quick2.cfg", "MCLazyDef_thorough.cfg"])},
     "C14": {"quick": dict(runs=[dict(fam="pool", iters=120, hist=60, shards=4)],
-                          mc=[("MCLazyPool", "MCLazyPool_seq_max1.cfg")], expect_violation=[("MCLazyPool", "MCLazyPool_asfound.cfg", "NoPanic")]),
+                          mc=[("MCLazyPool", "MCLazyPool_seq_max1.cfg"), ("MCLazyPool", "MCLazyPool_seq_zero_max2.cfg")],
+                          expect_violation=[("MCLazyPool", "MCLazyPool_asfound.cfg", "NoPanic"), ("MCLazyPool", "MCLazyPool_asfound_filter.cfg", "NoPanic")]),
             "thorough": dict(runs=[dict(fam="pool", iters=3000, hist=80, shards=16)],
                              mc=[("MCLazyPool", c) for c in SEQ_CFGS],
-                             expect_violation=[("MCLazyPool", "MCLazyPool_asfound.cfg", "NoPanic"), ("MCLazyPool", "MCLazyPool_notrunc.cfg", "Isolation")])},
+                             expect_violation=[("MCLazyPool", "MCLazyPool_asfound.cfg", "NoPanic"), ("MCLazyPool", "MCLazyPool_asfound_filter.cfg", "NoPanic"),
+                                               ("MCLazyPool", "MCLazyPool_notrunc.cfg", "Isolation")])},
     "C15": {"quick": dict(runs=[dict(fam="conc", iters=150, g=8, procs=4, race=True, shards=8),
                                 dict(fam="conc", iters=30, g=64, procs=16, race=True, shards=8),
                                 dict(fam="own", iters=150, g=8, procs=2, shards=8)],
